@@ -760,17 +760,40 @@ func (e *c12Env) ruleAPIPairing() {
 			if id, isID := arg.(*ast.Ident); isID {
 				obj := an.ObjOf(info, id)
 				d := c12DefOf(g, obj)
+				// a once-defined alias (or a chain of them) of the snapshot local
+				// (before := X.Snapshot(); rev := before; X.Rollback(rev)) is the
+				// same value: follow it to the defining call.  Every link must be
+				// a plain single definition from a function-local variable, and
+				// each definition must dominate the next use.
+				use, chainOK := node, true
+				for hops := 0; hops < 8 && d.count == 1 && d.addr == 0 && d.rhs != nil && d.idx == 0 && d.node != nil; hops++ {
+					aid, isAlias := ast.Unparen(d.rhs).(*ast.Ident)
+					if !isAlias {
+						break
+					}
+					src, isVar := an.ObjOf(info, aid).(*types.Var)
+					if !isVar || src.IsField() || src.Pkg() == nil || src.Parent() == src.Pkg().Scope() {
+						break
+					}
+					if !g.Dominated(use, an.SetOf(d.node)) {
+						chainOK = false
+					}
+					use = d.node
+					d = c12DefOf(g, src)
+				}
 				ok, why := false, ""
 				switch {
 				case d.count != 1 || d.rhs == nil:
 					why = "the revision variable is not defined exactly once in this function"
+				case !chainOK:
+					why = "an alias of the revision is not defined on every path before its use"
 				default:
 					call, isCall := ast.Unparen(d.rhs).(*ast.CallExpr)
 					if !isCall || an.CalleeName(info, call) != a.snap {
 						why = "the revision does not come from " + a.snap
 					} else if sp, is := c12RecvPath(info, call); !is || !sp.eq(rp) {
 						why = "the snapshot was taken on a different object than the one rolled back"
-					} else if !g.Dominated(node, an.SetOf(d.node)) {
+					} else if !g.Dominated(use, an.SetOf(d.node)) {
 						why = "the snapshot is not taken on every path before the rollback"
 					} else if c12DefOf(g, rp.root).count > 1 {
 						why = "the object is reassigned between snapshot and rollback"
